@@ -98,6 +98,7 @@ func (e *engine) GetSessionDatabase() storage.SessionDatabase { return e.db }
 // ---- the world
 
 type world struct {
+	mode     string // back-end answer semantics of every store created by fresh() (see store_test.go)
 	t        *testing.T
 	e        *echo.Echo
 	eng      *engine
@@ -171,6 +172,7 @@ func (w *world) fresh(alias map[string]string) *vstore {
 		alias = map[string]string{}
 	}
 	w.st = newVStore(alias)
+	w.st.mode = w.mode
 	w.eng.db = w.st.database()
 	return w.st
 }
